@@ -5,6 +5,25 @@ from pathlib import Path
 V = Path(__file__).resolve().parent
 BASE_CMD = json.load(open("/root/.vp/BASELINE.json"))["cmd"] if Path("/root/.vp/BASELINE.json").exists() else "cd /repo && /venv/bin/python -m pytest -ra -q -p no:cacheprovider --timeout=900 --continue-on-collection-errors"
 claims = json.load(open(V / "claims.json"))
+for f in sorted((V / "claims.d").glob("*.json")):
+    try:
+        claims[f.stem] = json.load(open(f))
+    except Exception as e:
+        print("skip", f, e)
+# merge known findings fragments (known_findings.d/*.json + fix commit table) into known_findings.json
+fixmap = json.load(open(V / "fixes" / "commits.json")) if (V / "fixes" / "commits.json").exists() else {}
+kf = {"findings": [], "fixed": []}
+for f in sorted((V / "known_findings.d").glob("*.json")):
+    try:
+        d = json.load(open(f))
+    except Exception as e:
+        print("skip", f, e); continue
+    kf["findings"] += d.get("findings", [])
+    for line in d.get("fixed", []):
+        for dn, sha in fixmap.items():
+            line = line.replace(f"<FIXCOMMIT:{dn}>", sha)
+        kf["fixed"].append(line)
+json.dump(kf, open(V / "known_findings.json", "w"), indent=1)
 props = [json.loads(l) for l in open(V / "properties.jsonl")]
 checks, na = [], []
 for p in props:
